@@ -85,3 +85,57 @@ func VerifC14_Compare() {
 		verifAnd(a.LivenessProbe.HttpGet.Port == b.LivenessProbe.HttpGet.Port, a.LivenessProbe.InitialDelay == b.LivenessProbe.InitialDelay)))
 	verifReach("end")
 }
+
+func verifList(t string, n int) []string {
+	var l []string
+	for i := 0; i < n; i++ {
+		l = append(l, verifStrAny(t+string(rune('0'+i)), 2))
+	}
+	return l
+}
+
+// C14 (kernel, list shapes): two configurations that differ at most in one string list
+// (environment or entrypoint) of length 0..2 on either side - absent, shorter, longer, other
+// content - are reported equal only if the lists, and what is derived from them, are the same.
+func VerifC14_CompareLists() {
+	which := verifChoose(2)
+	na, nb := verifChoose(3), verifChoose(3)
+	mk := func() *ProcessConfig {
+		return &ProcessConfig{Name: "p", ReplicaName: "p", Replicas: 1, WorkingDir: "w"}
+	}
+	a, b := mk(), mk()
+	la, lb := verifList("a", na), verifList("b", nb)
+	if which == 0 {
+		verifShape("environment")
+		a.Command, b.Command = "run", "run"
+		a.Environment, b.Environment = la, lb
+	} else {
+		verifShape("entrypoint")
+		a.Entrypoint, b.Entrypoint = la, lb
+	}
+	sh := &command.ShellConfig{ShellCommand: "sh", ShellArgument: "-c", ElevatedShellCmd: "sudo", ElevatedShellArg: "-S"}
+	a.AssignProcessExecutableAndArgs(sh, "-S")
+	b.AssignProcessExecutableAndArgs(sh, "-S")
+	eq := a.Compare(b) // REAL code
+	if !eq {
+		verifReach("different")
+		return
+	}
+	verifReach("equal")
+	if na != nb {
+		verifFail("lists.of.different.length.reported.equal")
+		return
+	}
+	for k := range la {
+		verifAssert("list.element", la[k] == lb[k])
+	}
+	verifAssert("executable", a.Executable == b.Executable)
+	if len(a.Args) != len(b.Args) {
+		verifFail("args.len")
+		return
+	}
+	for k := range a.Args {
+		verifAssert("args", a.Args[k] == b.Args[k])
+	}
+	verifReach("end")
+}
